@@ -382,6 +382,21 @@ def execute(steps):
                   E.obs.append({"bufs": snapshot(R), "log": list(R.calls)})
                   if st.get("retain_ctx"):
                       E.events.append(("SetRetainMode", False)); E.obs.append(None)
+              elif k == "backward_fail":
+                  # a call that must fail and is caught by the caller: gradient of the wrong shape (rejected after the graph walk),
+                  # or - when the root does not require grad - refused at once
+                  root = E.pool[st["root"]]
+                  R.refresh_owners()
+                  R.calls = []
+                  bad = np.ones(tuple(root.data.shape) + (2,), dtype=np.float64)
+                  raised = False
+                  try:
+                      root.backward(sg.Tensor(bad))
+                  except (RuntimeError, ValueError, AssertionError):
+                      raised = True
+                  if not raised:
+                      raise RuntimeError("backward accepted a gradient of shape %s for a tensor of shape %s" % (bad.shape, root.data.shape))
+                  E.events.append(("BackwardFails", R.idx(root))); E.obs.append({"bufs": snapshot(R), "log": list(R.calls)})
               elif k == "zero_t":
                   t = E.pool[st["t"]]
                   t.zero_()
@@ -561,6 +576,7 @@ Definition bt (l : list (option V2)) : nat -> option V2 := fun n => nth n l None
 Definition Ev := event Z2Alg.
 Definition Bd (nd : node) (l : list M2) : Ev := @Build Z2Alg nd (wl l).
 Definition Bw (r : nat) (s : V2) : Ev := @Backward Z2Alg r s.
+Definition Bf (r : nat) : Ev := @BackwardFails Z2Alg r.
 Definition Zt (v : nat) : Ev := @ZeroTensor Z2Alg v.
 Definition Zm (l : list nat) : Ev := @ZeroModule Z2Alg l.
 Definition Zo (l : list nat) : Ev := @ZeroOptim Z2Alg l.
@@ -601,6 +617,8 @@ def cevent(ev, arena_at_build, W):
         return "Bd (%s) %s" % (cnode(arena_at_build[i]), clist([cm2(M) for M in W[i]]))
     if k == "Backward":
         return "Bw %s %s" % (cnat(ev[1]), cv2(ev[2]))
+    if k == "BackwardFails":
+        return "Bf %s" % cnat(ev[1])
     if k == "ZeroTensor":
         return "Zt %s" % cnat(ev[1])
     if k == "ZeroModule":
@@ -732,6 +750,12 @@ def oracle_history(E):
                 if u != root and (mode or u in retained):
                     g = _grad_wrt(rv, seed, ("n", u), R.nodes[u]["t"].data.size)
                     extra[u] = (g[0], g[1])
+        elif k == "BackwardFails":
+            # as if the call had never happened; the only trace: leaves strictly below a tracked root get their (zero) buffer
+            root = ev[1]
+            for l in leaves:
+                if l < nbuilt and l != root and l in deps[root] and acc[l] is None:
+                    acc[l] = (Fraction(0), Fraction(0))
         elif k == "ZeroTensor":
             if ev[1] in acc:
                 acc[ev[1]] = (Fraction(0), Fraction(0))
@@ -988,8 +1012,10 @@ def gen_program(rng, max_nodes=40, nleaves=None, p_nograd=0.08, pre_events=True)
             t = rng.choice(tracked)
             if c < 0.35:
                 G.steps.append({"k": "zero_t", "t": rng.choice(list(G.vals))})
-            elif c < 0.6:
+            elif c < 0.55:
                 G.steps.append({"k": "retain", "t": t})
+            elif c < 0.75:
+                G.steps.append({"k": "backward_fail", "root": rng.choice([t, t, rng.choice(list(G.vals))])})
             else:
                 G.steps.append({"k": "backward", "root": t, "seed": G.seed_for(t), "retain_ctx": rng.random() < 0.2})
     cands = [i for i in tracked if G.depth[i] > 0] or tracked or list(G.vals)
@@ -1028,7 +1054,12 @@ def gen_history(rng, max_events=12, max_graphs=3, max_leaves=3):
             nev += 1
         elif c < 0.65:
             t = rng.choice(inner if rng.random() < 0.8 else tracked)
-            G.steps.append({"k": "backward", "root": t, "seed": G.seed_for(t), "retain_ctx": rng.random() < 0.2})
+            if rng.random() < 0.22:      # a failed call (caught), usually followed later by correct ones on the same graph
+                G.steps.append({"k": "backward_fail", "root": rng.choice([t, t, t, rng.choice(list(G.vals))])})
+                if rng.random() < 0.6:
+                    G.steps.append({"k": "backward", "root": t, "seed": G.seed_for(t)})
+            else:
+                G.steps.append({"k": "backward", "root": t, "seed": G.seed_for(t), "retain_ctx": rng.random() < 0.2})
             nev += 1
         elif c < 0.73:
             G.steps.append({"k": "retain", "t": rng.choice(inner)})
@@ -1061,6 +1092,8 @@ def describe(steps):
                                               (", %s" % json.dumps(st["p"])) if st.get("p") else "", "  # inside no_grad" if st.get("nograd") else ""))
         elif k == "backward":
             out.append("%st%d.backward(%s)" % ("with retain_grads(): " if st.get("retain_ctx") else "", st["root"], st["seed"]))
+        elif k == "backward_fail":
+            out.append("try: t%d.backward(<gradient of the wrong shape>)  except RuntimeError: pass" % st["root"])
         elif k == "zero_t":
             out.append("t%d.zero_()" % st["t"])
         elif k == "zero_mod":
@@ -1232,6 +1265,8 @@ def gen_tree_history(rng, max_events=12):
             nev += 1
         elif c < 0.80:
             t = rng.choice(inner if rng.random() < 0.85 else tracked)
+            if rng.random() < 0.15:
+                S.append({"k": "backward_fail", "root": t})
             S.append({"k": "backward", "root": t, "seed": G.seed_for(t), "retain_ctx": rng.random() < 0.1})
             nev += 1
         elif c < 0.90:
